@@ -503,15 +503,16 @@ WellFormed(c, cf) ==
   /\ \A i \in 1..Len(c.keys) : c.keys[i].cls \notin BadKeyCls
   /\ (c.verb \notin {"get", "gets"} => \A i \in 1..Len(c.keys) : c.keys[i].cls \in ValidKeyCls)
 
-\* the as-is walk (first alternative) that names the findings a plan can touch
-RECURSIVE PresentFrom(_, _, _, _)
-PresentFrom(s, cmds, i, acc) ==
+\* walks (first alternative) that name the findings a plan can touch: with the findings F, stopping at a
+\* close or not (a finding that closes the connection today hides what follows it, once fixed it does not)
+RECURSIVE PresentFrom(_, _, _, _, _, _)
+PresentFrom(s, cmds, i, acc, F, stop) ==
   IF i > Len(cmds) THEN [s |-> s, sigs |-> acc]
   ELSE LET c  == cmds[i]
-           os == Outcomes(c, s, AllFindings, NextGot(cmds, i))
+           os == Outcomes(c, s, F, NextGot(cmds, i))
            o  == CHOOSE x \in os : TRUE
-       IN IF o.closes \/ o.ends THEN [s |-> o.s, sigs |-> acc \cup SigOf(c, s)]
-          ELSE PresentFrom(o.s, cmds, i + 1, acc \cup SigOf(c, s))
+       IN IF stop /\ (o.closes \/ o.ends) THEN [s |-> o.s, sigs |-> acc \cup SigOf(c, s)]
+          ELSE PresentFrom(o.s, cmds, i + 1, acc \cup SigOf(c, s), F, stop)
 
 -----------------------------------------------------------------------------
 (* Part 4: the connection machine (ServeOnce at the grain of its stages)    *)
